@@ -1171,7 +1171,12 @@ def _presence(w, sid, up, emit=True):
     if up:
         w.presence_lost_at.pop(sname(sid), None)
     elif path in w.store.nodes:
-        w.presence_lost_at[sname(sid)] = w.now          # the outage cannot be older than this
+        srv_ = w.m.servers.get(sname(sid)) if w.m is not None else None
+        if srv_ is not None and srv_.state.value != 'down':
+            # the server was not down when its presence went away: this outage is not older than now
+            w.presence_lost_at[sname(sid)] = w.now
+        else:
+            w.presence_lost_at.pop(sname(sid), None)
     if up:
         if path in w.store.nodes:
             return False
